@@ -3,7 +3,7 @@ import gen_prog
 import e2e
 import vlib
 
-BIASES = [None, None, None, "overwrite-loop", "two-loops", "loops-in-branches", "chain-loop", "chain-loop", "tight-cycle", "tight-cycle", "for-accumulate", "branch-accumulate"]
+BIASES = [None, None, None, "overwrite-loop", "two-loops", "loops-in-branches", "chain-loop", "chain-loop", "tight-cycle", "tight-cycle", "for-accumulate", "branch-accumulate", "pair-cycle"]
 
 # minimal regression programs (witnesses of repaired defects and of open findings); run first
 CORPUS = [
@@ -31,6 +31,17 @@ def cfg_for(rng, max_sites=5):
     return gen_prog.Cfg(nvars=rng.choice([2, 3, 3, 4]), max_sites=rng.choice([3, 4, max_sites]),
                         bias=rng.choice(BIASES), constants=rng.random() < 0.6, sugar=rng.random() < 0.5,
                         max_depth=rng.choice([1, 2, 2, 3]), max_stmts=rng.choice([2, 3, 4, 5]))
+
+
+def focused(ctx, n, bias):
+    """n small programs of one biased family, with little random material around it"""
+    out = []
+    for i in range(n):
+        cfg = gen_prog.Cfg(nvars=ctx.rng.choice([3, 3, 4]), max_sites=5, bias=bias, constants=True, sugar=False, max_depth=1,
+                           max_stmts=ctx.rng.choice([1, 1, 2]))
+        cfg.loops = ctx.rng.random() < 0.3
+        out.append((f"{bias}{i}", gen_prog.gen_function(ctx.rng, cfg)[0]))
+    return out
 
 
 def programs(ctx, n, max_sites=5, corpus=True):
